@@ -9,10 +9,15 @@ pub mod c08;
 pub mod c09;
 pub mod c10;
 pub mod c11;
+pub mod c12;
+pub mod c13;
+pub mod c14;
 pub mod c15;
 pub mod c16;
 pub mod c17;
 pub mod c18;
+pub mod c19;
+pub mod c20;
 
 /// Print the reference model's and the real parser's view of one case (used by `replay`).
 pub fn show_case(g: &crate::gram::G, input: &[char]) {
